@@ -209,7 +209,7 @@ Section Frame.
       + cbn [remap_defined_type]. repeat (si_step || apply Hv).
       + cbn [remap_interface]. repeat (si_step || apply Hm || apply Hi || apply Hk).
       + cbn [remap_world]. repeat (si_step || apply Hi || apply Hk).
-      + cbn [merge_interface]. repeat (si_step || apply Hu || apply Hk).
+      + cbn [merge_interface]. repeat (si_step || apply Hu || apply Hk || apply Hm).
       + cbn [merge_interface_used_types]. repeat (si_step || apply Hi).
   Qed.
 
